@@ -95,27 +95,7 @@ func runC15(c *core.Ctx) {
 	eng.Dominates(c, "C15.success≺crosshashes", hit, g, nonNilParamSuccess(hit), "return of non-nil cross hashes", nil)
 
 	// executeBlock: Reset before every handleTransaction
-	eb := c.Fn(pkLedger, "LedgerStoreImp.executeBlock")
-	ht := eng.Obj(c, pkLedger, "LedgerStoreImp.handleTransaction")
-	if eb != nil && ht != nil {
-		hts := ir.CallsTo(eb, ht)
-		c.Floor("handleTransaction calls in executeBlock", len(hts), 1)
-		eng.MustPassCall(c, "C15.reset≺tx", eb, "cache.Reset", eng.CallPred(reset), ir.CallSinks(hts, "handleTransaction"), "handleTransaction", nil)
-		for _, h := range hts {
-			eng.MustPassCall(c, "C15.reset≺tx(loop)", eb, "cache.Reset", eng.CallPred(reset), ir.CallSinks(hts, "handleTransaction"), "next handleTransaction", &eng.Opt{Start: h})
-		}
-		// the cache handed to handleTransaction is the one that was reset
-		for _, h := range hts {
-			cacheArg := ir.Strip(h.Common().Args[2])
-			ok := false
-			for _, r := range ir.CallsTo(eb, reset) {
-				if ir.Strip(r.Common().Args[0]) == cacheArg {
-					ok = true
-				}
-			}
-			c.Decide(ok, "C15.reset≺tx", eb, "the CacheDB passed to handleTransaction is the one Reset() is called on", c.P.Rel(h.Pos()), "")
-		}
-	}
+	checkResetBeforeTx(c, "C15.reset≺tx")
 	// handleTransaction: results only when overlay.Error()==nil
 	if htf := c.Fn(pkLedger, "LedgerStoreImp.handleTransaction"); htf != nil {
 		oe := eng.Obj(c, pkOverlay, "OverlayDB.Error")
